@@ -55,16 +55,17 @@ theorem member_mono (A B : List Template) (h : subT A B = true) (s : Str) (hm : 
 def noPlus (T : List Template) : List Template := T.filter fun t => t.head? != some (Seg.one [43])
 
 /-- decidable: the pattern is template-shaped, everything it accepts is in `spec ++ extra`, and it accepts
-every `spec` template that does not start with `+` -/
+every `spec` template (also those with a leading `+`, since the fix "number, integer, length, percentage, angle, time
+and frequency values accept an explicit '+' sign") -/
 def typedAgree (r : Re) (spec extra : List Template) : Bool :=
   match r.templatesE with
-  | some T => subT T (spec ++ extra) && subT (noPlus spec) T
+  | some T => subT T (spec ++ extra) && subT spec T
   | none => false
 
 theorem typedAgree_spec (r : Re) (spec extra : List Template) (h : typedAgree r spec extra = true) (s : Str)
     (hs : s.getLast? ≠ some 10) :
     (accepts r s = true → member (spec ++ extra) s = true) ∧
-    (member (noPlus spec) s = true → accepts r s = true) := by
+    (member spec s = true → accepts r s = true) := by
   unfold typedAgree at h
   cases hT : r.templatesE with
   | none => simp [hT] at h
